@@ -61,6 +61,33 @@ static void do_comp(hctx* h, const uint8_t* x, size_t n, size_t cap) {
     free(src); free(dst);
 }
 
+/* Inputs of several MiB (the length preamble needs 4 varint bytes from 2 MiB on, 5 from 256 MiB): judged on the C side only -
+ * the round trip through the real decompressor, and the preamble decoded by hand must announce n.  The input is a function of
+ * (n, kind) so that the line stays short: kind 0 zeros, 1 a 251-byte period, 2 xorshift bytes (incompressible). */
+static void do_comp_big(hctx* h, size_t n, int kind) {
+    fprintf(h->out, "snappy_big n=%zu kind=%d", n, kind); h_call(h);
+    uint8_t* src = h_alloc(n);
+    uint64_t x = 0x9E3779B97F4A7C15ull ^ (uint64_t)n;
+    for (size_t i = 0; i < n; i++) { if (kind == 2) { x ^= x << 13; x ^= x >> 7; x ^= x << 17; } src[i] = kind == 0 ? 0 : kind == 1 ? (uint8_t)(i % 251) : (uint8_t)x; }
+    size_t cap = carquet_snappy_compress_bound(n); uint8_t* dst = h_alloc(cap); size_t dn = (size_t)-1;
+    int st = carquet_snappy_compress(src, n, dst, cap, &dn);
+    int rt = 0, hdr = 0;
+    if (st == 0 && dn <= cap) {
+        uint64_t v = 0; int sh = 0; size_t q = 0;
+        while (q < dn && q < 10) { v |= (uint64_t)(dst[q] & 0x7F) << sh; sh += 7; if (!(dst[q++] & 0x80)) break; }
+        hdr = v == (uint64_t)n;
+        uint8_t* c = h_alloc(dn); memcpy(c, dst, dn);
+        uint8_t* back = h_alloc(n); size_t bn = (size_t)-1;
+        int st2 = carquet_snappy_decompress(c, dn, back, n, &bn);
+        rt = (st2 == 0 && bn == n && memcmp(back, src, n) == 0);
+        free(c); free(back);
+    }
+    fprintf(h->out, " | st=%d n=%zu p_rt=%d p_preamble=%d\n", st, dn, rt, hdr);
+    st_comp++; if (st == 0) st_comp_ok++; else st_comp_refused++; st_big++;
+    h->n_lines++;
+    free(src); free(dst);
+}
+
 static void do_dec(hctx* h, const uint8_t* s, size_t n, size_t cap, const uint8_t* want, size_t wn) {
     uint8_t* src = h_alloc(n); memcpy(src, s, n);
     uint8_t* dst = h_alloc(cap);
@@ -152,6 +179,11 @@ static void gen_comp(hctx* h) {
     comp_case(h, 98304 + (size_t)h_below(h, 3000), 7, 0);
     comp_case(h, 100000, 5, 0);
     comp_case(h, 132000, 6, 1);
+    /* length preambles of 4 varint bytes: around 2^21, and sizes whose bit 21 is clear / set */
+    { static const size_t bn[] = { (1u << 21) - 1, 1u << 21, (1u << 21) + 1, (1u << 22) + 5, 5u << 20, (3u << 21) + 77, (1u << 23) + 9 };
+      for (unsigned i = 0; i < sizeof bn / sizeof bn[0]; i++) do_comp_big(h, bn[i], (int)(i % 2));
+      do_comp_big(h, (1u << 22) + 4097, 2);
+      if (h->thorough) { do_comp_big(h, (1u << 28) - 1, 0); do_comp_big(h, (1u << 28) + 3, 1); } }
     long m = h->thorough ? 6000 : 500;
     for (long i = 0; i < m; i++) {
         size_t n = (size_t)h_below(h, h_chance(h, 1, 6) ? 5000 : 400);
@@ -399,6 +431,7 @@ static void gen_dec(hctx* h) {
 
 /* ---------------------------------------------------------------- replay */
 static int replay_snappy(hctx* h, const h_line* l) {
+    if (!strcmp(l->op, "snappy_big")) { do_comp_big(h, (size_t)strtoull(h_in(l, "n"), NULL, 10), (int)h_ll(h_in(l, "kind"))); return 1; }
     if (!strcmp(l->op, "snappy_comp")) {
         size_t n; uint8_t* x = h_unhex(h_in(l, "src"), &n);
         do_comp(h, x, n, (size_t)h_ll(h_in(l, "cap"))); free(x); return 1;
